@@ -21,7 +21,7 @@ func init() {
 			"oracle: a valid script gets no error-severity diagnostic; the multiset of (unbound | duplicate | unused, name, range) reported equals the one computed by the reference resolver from declarations and uses (a variable used only before its declaration may or may not be reported unused), nothing else about variables is reported; " +
 			"non-trivial = the script declares >= 1 variable or was edited; distinct = script text",
 		Assumptions: []string{"validity is by construction of the generator (types of positions, literal portions summing to one, bounded send-all sources)", "ranges are taken from the printer's spans in the single-space layout"},
-		QuickBudget: 70 * time.Second,
+		QuickBudget: 240 * time.Second,
 		ThoroBudget: 12 * time.Minute,
 		Run:         runC16,
 	})
